@@ -155,6 +155,7 @@ func runC11(cfg *config, res *monitor.Result) {
 			res.Violate(sig, fmt.Sprintf("%s (%s): %s", t.md.FullName(), t.pkg.GoPkg, what),
 				map[string]any{"package": t.pkg.GoPkg, "message": string(t.md.FullName()), "value": bridge.Text(d)})
 		}
+		var prevFrame, prevFrameCopy []byte
 		for ci, c := range cases {
 			d := c.Msg
 			cfg.progress.Set("C11", t.pkg.GoPkg, string(t.md.FullName()), c.Class, c.Field)
@@ -367,6 +368,14 @@ func runC11(cfg *config, res *monitor.Result) {
 				if err != nil || (!hasBigMap(d.ProtoReflect()) && !bytes.Equal(b3, b1)) || len(b3) != len(b1) {
 					viol("GrpcCodec", "marshal-differs", "GrpcCodec.Marshal differs from csproto.Marshal", d)
 				}
+				// the frame handed out by the codec belongs to the caller (gRPC queues it): it must still hold the same bytes
+				// after the codec has marshaled the next messages
+				if prevFrame != nil && !bytes.Equal(prevFrame, prevFrameCopy) {
+					viol("GrpcCodec", "earlier-frame-changed", "the bytes returned by an earlier GrpcCodec.Marshal changed when the codec marshaled another message", d)
+				}
+				if err == nil {
+					prevFrame, prevFrameCopy = b3, append([]byte(nil), b3...)
+				}
 				back3 := t.pkg.New(t.md.FullName())
 				if err := codec.Unmarshal(b1, back3); err != nil || !sameAs(back3) {
 					viol("GrpcCodec", "unmarshal-differs", fmt.Sprintf("GrpcCodec.Unmarshal does not give the original (err=%v)", err), d)
@@ -449,7 +458,7 @@ func runC11(cfg *config, res *monitor.Result) {
 	// unsupported values: documented error / zero result, no panic (Reset is documented to panic)
 	if cfg.shard == 0 {
 		var typedNil *notAMessage
-		vals := map[string]any{"nil": nil, "int": 42, "string": "x", "struct": notAMessage{1}, "ptr-to-non-message": &notAMessage{1}, "typed-nil-non-message": typedNil, "slice": []byte{1}}
+		vals := map[string]any{"nil": nil, "int": 42, "string": "x", "struct": notAMessage{1}, "ptr-to-non-message": &notAMessage{1}, "ptr-to-int": new(int), "typed-nil-non-message": typedNil, "slice": []byte{1}}
 		for name, v := range vals {
 			v := v
 			check := func(fn string, f func() string) {
@@ -481,39 +490,31 @@ func runC11(cfg *config, res *monitor.Result) {
 				return ""
 			})
 			check("MsgType", func() string {
-				mt := csproto.MsgType(v)
-				// a pointer to something that is not a message is documented to fall through to GoogleV1; everything else is unknown
-				if mt != csproto.MessageTypeUnknown && !(mt == csproto.MessageTypeGoogleV1 && strings.Contains(name, "non-message")) {
+				if mt := csproto.MsgType(v); mt != csproto.MessageTypeUnknown {
 					return fmt.Sprintf("unexpected classification %d", mt)
 				}
 				return ""
 			})
 			check("Clone", func() string {
-				if strings.Contains(name, "non-message") {
-					_ = monitor.Try(func() { csproto.Clone(v) }) // classified GoogleV1: outcome unspecified
-					return ""
-				}
 				if c := csproto.Clone(v); c != nil {
 					return "expected nil"
 				}
 				return ""
 			})
 			check("Equal", func() string {
-				if strings.Contains(name, "non-message") {
-					return ""
-				}
 				if csproto.Equal(v, v) {
 					return "expected false"
 				}
 				return ""
 			})
 			check("MarshalText", func() string {
-				if strings.Contains(name, "non-message") {
-					return ""
-				}
 				if _, err := csproto.MarshalText(v); err == nil {
 					return "expected an error"
 				}
+				return ""
+			})
+			check("ClearAllExtensions", func() string {
+				csproto.ClearAllExtensions(v) // nothing to clear, nothing to report: it must only not panic
 				return ""
 			})
 		}
